@@ -654,6 +654,11 @@ func (b *Book) ingestMelt(o *HTTPObs, resp map[string]any) {
 		// PAID without a pay call: internal settlement against a mint quote of the same mint
 		if mq := m.MQByHash[q.Hash]; mq != "" {
 			internal = true
+			// the melt that pays a mint quote must be worth that quote (an invoice with the same
+			// payment hash but a lower amount is not that quote's invoice)
+			if !q.Mpp && q.Amount < m.MQ[mq].Amount {
+				b.Violate("C03.internal_underpaid", "melt", "mint quote %s over %d sat was settled internally by a melt of %d sat (invoice with the same payment hash, other amount)", short(mq), m.MQ[mq].Amount, q.Amount)
+			}
 			alreadyCounted := false
 			for _, other := range q.Attempts {
 				if other != at && other.Paid {
